@@ -439,6 +439,8 @@ class PVLParser(object):
 
         try:
             self.parse_around_equals(tokens)
+        except LexerError:
+            raise
         except ValueError:
             tokens.throw(
                 ValueError, f'Expecting an equals sign after "{begin}" '
@@ -494,6 +496,10 @@ class PVLParser(object):
 
         try:
             self.parse_around_equals(tokens)
+        except LexerError:
+            # Not the absence of an equals sign, but text that cannot be
+            # tokenized at all.
+            raise
         except (ParseError, ValueError):  # No equals statement, which is fine.
             self.parse_statement_delimiter(tokens)
             return None
